@@ -23,12 +23,18 @@ Vals == <<
 >>
 
 Big == [t |-> "num", q |-> 2000000000, big |-> TRUE]
+JDocOK  == S(<<"{", "\"", "a", "\"", ":", "\"", "s", "\"", "}">>)       \* {"a":"s"}
+JDocBad == S(<<"{", "\"", "a", "\"", ":", "1", "}">>)                    \* {"a":1}
 (* extra values for the extended universe (formats etc.; no oracle there) *)
 VX == << S(<<"2","0","2","0","-","0","1","-","0","1">>),
          S(<<"2","0","2","0","-","0","1","-","0","1","T","0","0",":","0","0",":","0","0","Z">>),
          S(<<"a","b","c","=">>), N(8000), Obj(<<"x">>, <<S(<<"k">>)>>),
          \* 10^19: an integer beyond int64 (exact in float64); "big" tells the realiser to write it out in full
-         Big, Obj(<<"x">>, <<Big>>), Arr(<<Big>>) >>
+         Big, Obj(<<"x">>, <<Big>>), Arr(<<Big>>),
+         \* strings that hold a JSON document (for the caller-defined format "x-nested"): a conforming and a violating one
+         JDocOK, JDocBad, Obj(<<"x">>, <<JDocBad>>), Arr(<<JDocOK, JDocBad>>),
+         \* objects the discriminator mapping of "discref" designates D for
+         Obj(<<"x", "y">>, <<S(<<"k">>), One>>), Obj(<<"x", "y">>, <<S(<<"k">>), S(<<"a">>)>>) >>
 
 (* C19: the same shapes with a unique marker string at every string leaf; "Mq<d>" occurs *)
 (* in no schema text of the universe (checked by MarkerDiscipline in MC_C19).            *)
@@ -47,7 +53,9 @@ MVals == <<
    Arr(<<Arr(<<Mk("f")>>)>>), Obj(<<"x", "y">>, <<Mk("g"), Mk("h")>>),
    \* strings that have the SHAPE a format asks for and are still not values of it (a validator that gets past its
    \* shape check must not start quoting): an impossible day, an impossible time, an octet > 255, two "::", bad base64
-   FDate, FDateTime, FIpv4, FIpv6, FByte, Obj(<<"x">>, <<FDate>>), Arr(<<FIpv4>>) >>
+   FDate, FDateTime, FIpv4, FIpv6, FByte, Obj(<<"x">>, <<FDate>>), Arr(<<FIpv4>>),
+   \* the discriminator value "k" (a mapping key of "discref": schema text, not a marker) next to a marker that violates D
+   Obj(<<"x", "y">>, <<S(<<"k">>), Mk("i")>>) >>
 
 Atom(f, x) == [f |-> f, x |-> x]
 
@@ -59,6 +67,8 @@ CombAtoms ==
    {Atom("oneOf", <<TInt, TStr>>), Atom("oneOf", <<[type |-> "number"], [minimum |-> 4]>>),
     Atom("anyOf", <<TInt, TStr>>), Atom("anyOf", <<[minimum |-> 8], [minLength |-> 2]>>),
     Atom("allOf", <<[type |-> "number"], [minimum |-> 4]>>), Atom("allOf", <<[nullable |-> TRUE]>>),
+    Atom("oneOf", <<[pk |-> <<"x">>, ps |-> <<[default |-> One]>>]>>),       \* the matching alternative brings a default (meets "required: [x]")
+    Atom("anyOf", <<[pk |-> <<"x">>, ps |-> <<[default |-> One]>>]>>),
     Atom("not", TStr), Atom("not", [enum |-> <<Num(4)>>]),
     Atom("items", TInt), Atom("apSchema", TStr)}
 
@@ -85,7 +95,9 @@ ExtAtoms ==
                                 "ipv4", "ipv6",       \* opt-in validators (DefineIPv4Format / DefineIPv6Format): they return schema errors of their own
                                 "x-even-length",      \* a validator the caller registers (harness: strings of even length), returning a plain error
                                 "x-wrapped"}}         \* a caller's validator that delegates to a library validator and WRAPS its (value-free) schema error
-   \cup {Atom("pattern", "^[a-z]+$"), Atom("pattern", "("), Atom("disc", "x"), Atom("discmap", "x")}
+   \cup {Atom("pattern", "^[a-z]+$"), Atom("pattern", "("), Atom("disc", "x"), Atom("discmap", "x"),
+         Atom("discref", "x"),         \* oneOf: [$ref D] with discriminator x and mapping {k: D}; D = {properties: {y: integer}}
+         Atom("format", "x-nested")}   \* a caller's validator that hands back a library schema error with a path of its own
 
 (* keywords an outer (wrapping) level may add next to the wrapped schema *)
 OuterAtoms ==
@@ -107,6 +119,8 @@ CanAdd(s, a) ==
    /\ a.f = "exclusiveMaximum" => Has(s, "maximum")
    /\ a.f = "disc" => Has(s, "oneOf") /\ ~Has(s, "discmap")   \* discriminator only next to oneOf
    /\ a.f = "discmap" => Has(s, "oneOf") /\ ~Has(s, "disc")   \* ... with a one-entry mapping {k: <ref>}
+   /\ a.f = "discref" => ~Has(s, "oneOf") /\ ~Has(s, "disc") /\ ~Has(s, "discmap")
+   /\ a.f \in {"oneOf", "disc", "discmap"} => ~Has(s, "discref")
    /\ a.f = "apFalse" => ~Has(s, "apSchema")      \* additionalProperties is one or the other
    /\ a.f = "apSchema" => ~Has(s, "apFalse")
 
